@@ -826,6 +826,10 @@ def _round1(x):
         fr = x.e - z3.ToReal(f)
         r = z3.If(fr < 0.5, f, z3.If(fr > 0.5, f + 1, z3.If(f % 2 == 0, f, f + 1)))
         return SReal(z3.ToReal(r))
+    if isinstance(x, SBool):
+        return x._i()
+    if isinstance(x, (_pybool, _rnp.bool_)):
+        return _pyint(x)
     if isinstance(x, (SInt, _pyint)):
         return x
     return _pyfloat(_rnp.round(x))
@@ -1158,6 +1162,27 @@ class _Testing:
 
 
 testing = _Testing
+
+
+class _IInfo:
+    def __init__(self, dt):
+        self.min, self.max = dt.range()
+        self.bits = dt.bits
+        self.dtype = dt
+
+
+def iinfo(dt):
+    return _IInfo(as_dtype(dt))
+
+
+class _FInfo:
+    def __init__(self, dt):
+        fi = _rnp.finfo(dt.name)
+        self.min, self.max, self.eps, self.tiny = float(fi.min), float(fi.max), float(fi.eps), float(fi.tiny)
+
+
+def finfo(dt):
+    return _FInfo(as_dtype(dt))
 
 
 def isscalar(x):
